@@ -128,8 +128,11 @@ class Ctx:
         ev = {"property_id": self.prop, "tier": self.tier, "seed": self.seed, "level": level,
               "coverage": cov, "assumptions": self.assumptions,
               "wall_s": round(time.time() - self.t0, 2), "violations": len(self.violations)}
-        os.makedirs(os.path.join(VERIF, "evidence"), exist_ok=True)
-        with open(os.path.join(VERIF, "evidence", self.prop + ".json"), "w") as f:
+        # evidence is about /repo itself; a run pointed at a scratch worktree (seeded-change trials) must not overwrite it
+        evdir = os.path.join(VERIF, "evidence" if os.path.realpath(REPO) == "/repo" else "evidence-scratch")
+        ev["repo"] = REPO
+        os.makedirs(evdir, exist_ok=True)
+        with open(os.path.join(evdir, self.prop + ".json"), "w") as f:
             json.dump(ev, f, indent=1, default=str)
         # stale known findings are reported informationally (they suppress nothing)
         for k in self.known:
